@@ -22,7 +22,7 @@ PKG = "pkg/regserver/regprocessor"
 FILES = ["common/vcommon_test.go", "pkg_regprocessor/data_bridge_verif.go", "pkg_regprocessor/data_verif_test.go"]
 BROKEN = {"clone-early": "RespEqualsForwarded", "forward-forged": "ForgedFieldsDropped",
           "override-despite-disable": "OverridesOnlyIfAllowed", "exclude-after-subst": "ExcludedNeverReplaced",
-          "last-wins": "EveryNonZeroSubnetUsed"}
+          "last-wins": "EveryNonZeroSubnetUsed", "rebuild-for-outdated": "RespEqualsForwarded"}
 INVS = ["TypeOK", "RespEqualsForwarded", "StationAgrees", "ForgedFieldsDropped", "OverridesOnlyIfAllowed",
         "SubstituteFromConfiguredSubnets", "EveryNonZeroSubnetUsed", "ExcludedNeverReplaced", "FamiliesAnswered"]
 
@@ -61,8 +61,10 @@ def run(ctx):
     classes = set()
     with open(rows_in, "w") as f:
         for i, k in enumerate(order):
-            f.write(json.dumps(groups[k]) + "\n")
             gk = groups[k]
+            if gk["req"].get("outdated"):
+                continue      # the processor knows nothing of ClientConf generations: that half of the table is for the API front end
+            f.write(json.dumps(groups[k]) + "\n")
             classes.add(json.dumps([gk["req"], gk["cfg"]], sort_keys=True))
             if i in (4242, 31337):
                 ctx.sample({"stage": "B", "row": gk})
@@ -102,6 +104,8 @@ def run(ctx):
             if (i + ctx.seed) % step == 0:
                 fa.write(json.dumps(gk) + "\n")
                 na += 1
+            if gk["req"].get("outdated"):
+                continue
             if gk["req"]["fam"] == "v6" and (i + ctx.seed) % (step // 2 + 1) == 0:
                 fd.write(json.dumps(gk) + "\n")
                 nd += 1
